@@ -38,4 +38,28 @@ def sizeBase (bin : Bool) : Nat := if bin then 1024 else 1000
 def nextDay (y m d : Nat) : Nat × Nat × Nat :=
   if d < daysInMonth y m then (y, m, d + 1) else if m < 12 then (y, m + 1, 1) else (y + 1, 1, 1)
 
+/-! ### the documented grammars, as predicates on the whole string (`s` has the documented form and `v` is its
+    documented value) -/
+
+/-- whitespace · number · whitespace · a documented unit in any ASCII case · whitespace; value = number × unit -/
+def DocDuration (s : List Sym) (v : Nat) : Prop :=
+  ∃ pre ds mid w post word k,
+    s = pre ++ ds.map Sym.dig ++ mid ++ w ++ post ∧
+    pre.all isWs = true ∧ mid.all isWs = true ∧ post.all isWs = true ∧ ds ≠ [] ∧
+    (word, k) ∈ docDurationUnits ∧ w.map lowerSym = wordSyms word ∧ v = num ds * k
+
+/-- number · whitespace · [scale letter] [i] [B] in any case (as `str.upper()` sees it) · at most one final
+    newline; value = number × 1000^i, resp. × 1024^i with the "i" -/
+def DocSize (s : List Sym) (v : Nat) : Prop :=
+  ∃ ds mid w tail i bin hasB,
+    s = ds.map Sym.dig ++ mid ++ w ++ tail ∧ ds ≠ [] ∧ mid.all isWs = true ∧ (tail = [] ∨ tail = [Sym.nl]) ∧
+    i ≤ 6 ∧ w.map upperSym = wordSyms (sizeSuffix i bin hasB) ∧ v = num ds * sizeBase bin ^ i
+
+/-- exactly `YYYY-MM-DD` naming a day that exists; value = 86400 × (days since 1970-01-01) -/
+def DocDate (s : List Sym) (t : Int) : Prop :=
+  ∃ a b c d e f g h : Fin 10,
+    s = [.dig a, .dig b, .dig c, .dig d, .asc 45, .dig e, .dig f, .asc 45, .dig g, .dig h] ∧
+    validDate (num [a, b, c, d]) (num [e, f]) (num [g, h]) = true ∧
+    t = 86400 * ((ordinal (num [a, b, c, d]) (num [e, f]) (num [g, h]) : Int) - (epochOrd : Int))
+
 end Tahoe.Config
